@@ -348,6 +348,17 @@ class Contracts(object):
                 e = dp_at(np.asarray(tabs[typ[i]]), m[i]) / lim - 1.0
                 if e > worst:
                     worst, wi = e, i
+            # beyond the largest tabulated flow no pressure drop is known
+            # (the curve is convex: any linear extension underestimates it),
+            # so with a limit in force no flow may leave the table's range
+            over = max(float(m[i]) / float(np.max(np.asarray(
+                tabs[typ[i]])[:, 2])) - 1.0 for i in range(m.shape[0]))
+            res.check('D3b_limited_flow_within_tabulated_range',
+                      over <= 1e-9,
+                      'with a pressure-drop limit in force a distributed flow '
+                      'is %.1f %% above the largest tabulated flow of its '
+                      'type (no pressure drop is known there)' % (100 * over),
+                      dict(key, mech='beyond_table'))
             last = int(lab[wi]) == tok['n_groups'] - 1
             res.stat('D3_dp_over_limit_rel', worst)
             res.check('D3_dp_limit_respected', worst <= TOL,
@@ -458,6 +469,25 @@ class Contracts(object):
                        'from the distributed flow',
                        self.key(mech='applied_flow'))
 
+    def read_post(self, args, kwargs, out, tok):
+        # the pressure drop the finished DASSH run actually has, for every
+        # grouped assembly, against the limit (the parametric table is
+        # piecewise linear on a convex curve, so its flow limit is on the
+        # safe side; holding the last tabulated flow beyond the table too)
+        o, rx = args[0], args[1]
+        lim = o.orifice_input.get('pressure_drop_limit')
+        if not lim:
+            return
+        lim = float(lim) * 1e6
+        for a in rx.assemblies:
+            if a.name in o.orifice_input['assemblies_to_group']:
+                e = float(a.pressure_drop) / lim - 1.0
+                # observation only: the run's own pressure drop differs
+                # from the table's by a few per cent (other temperatures,
+                # inter-assembly heat exchange; +2 % measured), so the limit
+                # is asserted on the table (D3) and on the table's range (D3b)
+                self.res.stat('A2_actual_dp_over_limit_rel', e)
+
     def attach(self, hk, applied=False):
         hk.wrap(Orificing, '_group', pre=self.group_pre, post=self.group_post)
         hk.wrap(Orificing, 'distribute', pre=self.dist_pre,
@@ -468,6 +498,7 @@ class Contracts(object):
             hk.wrap(Orificing, 'run_dassh_orifice', pre=self.applied_pre,
                     post=self.applied_post)
             hk.wrap(dassh.Reactor, '_setup_zpts', pre=self.zpts_pre)
+            hk.wrap(Orificing, '_read_dassh_results', post=self.read_post)
 
 
 def exit_is_logged(res, where, key):
